@@ -10,7 +10,8 @@ Top = namedtuple("Top", "ty name")
 Int = namedtuple("Int", "lin bits w signed tags")
 Bool = namedtuple("Bool", "cond")
 Flt = namedtuple("Flt", "term w")
-Enum = namedtuple("Enum", "ty variants name")  # variants: tuple of (idx, fields tuple)
+Enum = namedtuple("Enum", "ty variants name guards")  # variants: tuple of (idx, fields tuple); guards: None | tuple of (idx, frozenset of facts)
+Enum.__new__.__defaults__ = (None,)
 Struct = namedtuple("Struct", "ty fields")
 Arr = namedtuple("Arr", "ty elems")  # elems: tuple of values (small fixed arrays)
 Ref = namedtuple("Ref", "loc path mut")
